@@ -9,12 +9,15 @@ from hv import Case
 from kern2 import Snap, fr_tok
 
 SPEC = {
-    "lean_modules": ["Honeycomb.Props.C14", "Honeycomb.Props.C14b", "Honeycomb.Props.C14c", "Honeycomb.Props.C14d", "Honeycomb.Props.C14Gen"],
+    "lean_modules": ["Honeycomb.Props.C14", "Honeycomb.Props.C14b", "Honeycomb.Props.C14c", "Honeycomb.Props.C14d", "Honeycomb.Props.C14Gen", "Honeycomb.Props.C14GenN"],
     # Gen/VertexInsertion.lean is re-translated from honeycomb-kernels/src/cell_insertion/vertices.rs and dim2/links/*.rs before every build
-    "gen": ["vins"],
+    "gen": ["vins", "vinsn"],
     "required_theorems": [
         # Props/C14Gen.lean: the translated single-vertex kernel (validation prefix, both arms, the written value) IS the model's
         "C14_gen_isFreeTx", "C14_gen_link_dispatch", "C14_gen_insertVertexOnEdge", "C14_gen_insertVertex_preserves_WF", "C14_gen_bound_single",
+        # Props/C14GenN.lean: the translated MULTI-vertex kernel (validation prefix, the three loops by induction) IS the model's
+        "C14_gen_chainFirst_step", "C14_gen_chainFirst", "C14_gen_chainSecond_step", "C14_gen_chainSecond", "C14_gen_placeVertices_step",
+        "C14_gen_placeVertices", "C14_gen_insertVerticesOnEdge", "C14_gen_insertVertices_preserves_WF", "C14_gen_wrong_count",
         "C14_insertVertices_preserves_WF", "C14_insertVertex_preserves_WF",
                           "C14_error_leaves_map_unchanged", "C14_new_vertex_position",
                           "C14_insertVertices_beta_structure", "C14_new_darts_distinct_vertices",
